@@ -614,6 +614,148 @@ let handle_open c =
   spec_ok c "C13.iff" (accepted = valid_trailer_suffixb f)
     (Printf.sprintf "open %s but valid-trailer-suffix = %b" impl (valid_trailer_suffixb f))
 
+
+(* ---------- C11: writer under a schedule of partial writes / interruptions ---------- *)
+let parse_sched (tok : string) : resp list =
+  if tok = "-" then [] else
+  List.map (fun t ->
+    if t = "i" then RInterrupt
+    else RAccept (n_of_int (min (int_of_string (String.sub t 1 (String.length t - 1))) 1000000000)))
+    (String.split_on_char ',' tok)
+
+let fnv_string (s : string) : string =
+  let h = ref fnv_init in String.iter (fun ch -> fnv_feed h (Char.code ch)) s; Printf.sprintf "%016Lx" !h
+
+let handle_wsched c =
+  let cfg = parse_cfg c in
+  let es = parse_entries c in
+  let zt = ztab_of c in
+  let sched = parse_sched (get1 c "sched") in
+  let plain = get1 c "plain" in
+  let impl = get c "impl" in
+  (match w_run_sched (compress_of zt) sched cfg es with
+   | (_, Done ((s, _), _)) ->
+     check_eq c "delivered" (String.concat " " impl) ("file " ^ hex_of_bytes (sk_bytes s));
+     let calls = List.rev_map string_of_n s.sk_calls in
+     check_eq c "calls" (String.concat " " (get c "calls")) (Printf.sprintf "%d %s" (List.length calls) (fnv_string (String.concat "," calls)))
+   | (i, Panic) -> check_eq c "delivered" (String.concat " " impl) "panic -"
+   | (i, Fail e) -> check_eq c "delivered" (String.concat " " impl) ("err " ^ err_name e));
+  spec_ok c "C11.bytes" (impl = ["file"; plain]) "bytes delivered under the schedule differ from the whole-buffer run";
+  (* and the plain run itself is what the model writes *)
+  (match w_run (compress_of zt) cfg es with
+   | WFile (mf, _, _) -> check_eq c "plain" plain (hex_of_bytes mf)
+   | _ -> check_eq c "plain" plain "model-failed")
+
+let handle_same c =
+  let r = String.concat " " (get c "ref") in
+  List.iter (fun t -> match t with
+    | name :: g -> spec_ok c ("C11." ^ get1 c "what" ^ "." ^ name) (String.concat " " g = r)
+                     (Printf.sprintf "result under schedule %s = %s, unscheduled = %s" name (String.concat " " g) r)
+    | _ -> ()) (get_all c "got")
+
+(* ---------- C12: faults ---------- *)
+let fault_spec c field (res : string) (fired : string) (free : string) =
+  if fired = "-" then spec_ok c ("C12.quiet." ^ field) (res = free) (Printf.sprintf "no fault fired but result is %s (fault-free: %s)" res free)
+  else spec_ok c ("C12.surface." ^ field) (res = fired ^ " io7") (Printf.sprintf "fault fired during call %s, observed %s" fired res)
+
+let handle_wfault c =
+  let cfg = parse_cfg c in
+  let es = parse_entries c in
+  let zt = ztab_of c in
+  List.iter (fun t -> match t with
+    | [p; "="; at; cls; "fired"; fired] ->
+      let field = "p" ^ p in
+      let (pos, fl) = if p = "flush" then (None, true) else (Some (n_of_string p), false) in
+      let model = (match w_run_fault (compress_of zt) pos fl cfg es with
+        | (_, Done _) -> "ok -"
+        | (i, Fail e) -> string_of_n i ^ " " ^ err_name e
+        | (i, Panic) -> "panic -") in
+      check_eq c field (at ^ " " ^ cls) model;
+      fault_spec c field (at ^ " " ^ cls) fired "ok -"
+    | _ -> failwith "wfault line") (get_all c "f")
+
+let handle_rfault c =
+  let zt = ztab_of c in
+  let file = bytes_of_hex (get1 c "file") in
+  let dec = decompress_of zt in
+  let ops = List.map (fun t -> match t with [_; name; q] -> parse_op name q | _ -> failwith "op") (get_all c "op") in
+  match open_meta file with
+  | Done m ->
+    let base = memo_load (load_block dec file m.m_codec) in
+    List.iter (fun t -> match t with
+      | [kind; k; "load"; j; "="; a; b; "fired"; fired] ->
+        let field = kind ^ k in
+        let res = a ^ " " ^ b in
+        let j = int_of_string j in
+        if j >= 0 then begin
+          let load = faulty_load base (n_of_int j) in
+          let rec go st i = function
+            | [] -> "ok -"
+            | o :: rest ->
+              (match cstep load m.m_root m.m_levels st o with
+               | Done (st', _) -> go st' (i + 1) rest
+               | Panic -> string_of_int i ^ " panic"
+               | Fail e -> string_of_int i ^ " " ^ err_name e) in
+          check_eq c field res (go cs_fresh 0 ops)
+        end;
+        let fired' = if fired = "18446744073709551615" then "open" else fired in
+        fault_spec c field res fired' "ok -"
+      | _ -> failwith "rfault line") (get_all c "f")
+  | _ -> spec_ok c "C12.open" false "file does not open in the model"
+
+let handle_sfault c =
+  let (scfg, stable, _, _) = parse_scfg c in
+  let base_mf : n -> n list -> n list list -> n list outcome = if stable then mf_concat else mf_sortcat in
+  let ins = List.map (fun t -> match t with [k; v] -> (bytes_of_hex k, bytes_of_hex v) | _ -> failwith "ins") (get_all c "ins") in
+  let nins = List.length ins in
+  let free = String.concat "_" (get c "free") in
+  (* insert index during which ChunkCreator::create number j is called (nins = the final call) *)
+  let create_call j =
+    let rec go st i = function
+      | [] -> nins
+      | (k, v) :: rest ->
+        (match n_insert scfg st (n_of_int (List.length k + List.length v)) with
+         | Done st' -> if int_of_n st'.ns_creates > j then i else go st' (i + 1) rest
+         | _ -> i) in
+    go (n_new scfg) 0 ins in
+  let merge_call j =
+    let mf = mf_fail_at (n_of_int j) base_mf in
+    let rec go st i = function
+      | [] -> (match s_finish mf st with Done _ -> "- ok" | Panic -> string_of_int nins ^ " panic" | Fail e -> string_of_int nins ^ " err_" ^ err_name e)
+      | (k, v) :: rest ->
+        (match s_insert scfg mf st k v with
+         | Done st' -> go st' (i + 1) rest
+         | Panic -> string_of_int i ^ " panic"
+         | Fail e -> string_of_int i ^ " err_" ^ err_name e) in
+    go (s_new scfg) 0 ins in
+  List.iter (fun t -> match t with
+    | ["create"; j; variant; "="; at; res; "fired"; fired] ->
+      let field = "create" ^ j in
+      let cls = (match variant with "0" -> "io7" | "1" -> "version" | _ -> "codec") in
+      check_eq c field (at ^ " " ^ res) (string_of_int (create_call (int_of_string j)) ^ " err_" ^ cls);
+      spec_ok c ("C12.surface." ^ field) (at = fired && res = "err_" ^ cls)
+        (Printf.sprintf "creator failure %s during call %s surfaced as %s at call %s" cls fired res at)
+    | ["merge"; j; _; "="; at; res; "fired"; _] ->
+      let field = "merge" ^ j in
+      check_eq c field (at ^ " " ^ res) (merge_call (int_of_string j));
+      spec_ok c ("C12.surface." ^ field) (res = "err_merge") ("merge function failure surfaced as " ^ res)
+    | ["io"; kind; k; "="; at; res; "fired"; fired] ->
+      let field = "io" ^ kind ^ "." ^ k in
+      if fired = "-" then spec_ok c ("C12.quiet." ^ field) (res = free) (Printf.sprintf "no fault fired but result %s (fault-free %s)" res free)
+      else spec_ok c ("C12.surface." ^ field) (at = fired && res = "err_io7")
+          (Printf.sprintf "chunk storage fault during call %s surfaced as %s at call %s" fired res at)
+    | _ -> failwith "sfault line") (get_all c "f")
+
+let handle_mfault c =
+  let free = get1 c "free" in
+  List.iter (fun t -> match t with
+    | ["io"; kind; k; "="; at; res; "fired"; fired] ->
+      let field = "io" ^ kind ^ "." ^ k in
+      if fired = "-" then spec_ok c ("C12.quiet." ^ field) (res = free) (Printf.sprintf "no fault fired but result %s (fault-free %s)" res free)
+      else spec_ok c ("C12.surface." ^ field) (at = fired && res = "err_io7")
+          (Printf.sprintf "source fault during call %s surfaced as %s at call %s" fired res at)
+    | _ -> failwith "mfault line") (get_all c "f")
+
 let timing = try Sys.getenv "DRIVER_TIMING" = "1" with Not_found -> false
 let rec dispatch c =
   if timing then begin
@@ -635,6 +777,12 @@ and dispatch1 c =
   | "iter" -> handle_iter c
   | "merge" -> handle_merge c
   | "open" -> handle_open c
+  | "wsched" -> handle_wsched c
+  | "same" -> handle_same c
+  | "wfault" -> handle_wfault c
+  | "rfault" -> handle_rfault c
+  | "sfault" -> handle_sfault c
+  | "mfault" -> handle_mfault c
   | "sorter" -> handle_sorter c
   | "sortnum" -> handle_sortnum c
   | k -> failwith ("unknown case kind " ^ k)
